@@ -86,6 +86,8 @@ pub struct Sim {
     pub turns_total: u64,
     /// clients read concurrently while the server sleeps inside a turn (off = slow readers)
     pub auto_drain: bool,
+    /// background threads excluded from eager running (scheduled explicitly by the check)
+    pub bg_manual: Vec<usize>,
 }
 
 fn on_yield(site_id: u32, a: u64, b: u64) {
@@ -136,7 +138,7 @@ impl Sim {
         g().disk_prefix = base_dir.as_bytes().to_vec();
         world::log_event(&format!("sim seed {} entropy {}", seed, entropy_seed));
         Sim { seed, sched_rng: xo_seed(seed ^ 0x5C4ED), instances: Vec::new(), clients: Vec::new(), base_dir,
-              bg_eager: true, preempt_permille: 0, quanta: 0, turns_total: 0, auto_drain: true }
+              bg_eager: true, preempt_permille: 0, quanta: 0, turns_total: 0, auto_drain: true, bg_manual: Vec::new() }
     }
 
     pub fn cleanup(&self) { let _ = std::fs::remove_dir_all(&self.base_dir); }
@@ -351,6 +353,7 @@ impl Sim {
         loop {
             let mut progressed = false;
             for t in self.bg_threads(inst).into_iter().chain(self.unowned_new_threads(inst)) {
+                if self.bg_manual.contains(&t) { continue; }
                 let mut guard = 0;
                 while self.is_runnable(t) {
                     match self.step(t, 0, 0, 0) { None => return false, Some(_) => {} }
